@@ -227,6 +227,27 @@ theorem genuineSide_perm {v : Venue} {lo hi : Nat} {side : Side} {a b : List Lev
   exact ⟨l, hp.mem_iff.mp hl, hlp⟩
 
 
+/-- in a well-formed venue (ids strictly increasing) the changes with id ≤ `c.id` are exactly the
+history up to and including `c` -/
+theorem changesUpTo_prefix (pre post : Venue) (c : Change) (side : Side)
+    (h : Venue.WF (pre ++ c :: post)) :
+    changesUpTo (pre ++ c :: post) c.id side =
+      ((pre ++ [c]).filter fun d => decide (d.side = side)).map fun d => ⟨d.price, d.amount⟩ := by
+  unfold Venue.WF at h
+  rw [List.pairwise_append] at h
+  obtain ⟨_, hcp, hpre⟩ := h
+  rw [List.pairwise_cons] at hcp
+  have h1 : ∀ d ∈ pre, d.id ≤ c.id := fun d hd => Nat.le_of_lt (hpre d hd c (by simp))
+  have h2 : ∀ d ∈ post, ¬ d.id ≤ c.id := fun d hd => Nat.not_le_of_gt (hcp.1 d hd)
+  unfold changesUpTo
+  congr 1
+  simp only [List.filter_append, List.filter_cons, Nat.le_refl, decide_true, Bool.true_and, List.filter_nil]
+  have e1 : pre.filter (fun d => decide (d.id ≤ c.id) && decide (d.side = side)) = pre.filter (fun d => decide (d.side = side)) :=
+    List.filter_congr (fun d hd => by simp [h1 d hd])
+  have e2 : post.filter (fun d => decide (d.id ≤ c.id) && decide (d.side = side)) = [] := by
+    rw [List.filter_eq_nil_iff]; intro d hd; simp [h2 d hd]
+  rw [e1, e2]
+
 /-! ## the local book follows the exchange's book -/
 
 /-- `m` is a genuine message of the venue for *some* id range. -/
